@@ -147,13 +147,18 @@ def computeLeafLayout (input : LayoutInput α) (style : Style α)
       -- l.143–146
       let clampedSize :=
         Size.fo_clamp ((knownDimensions.orOpt nodeSize).unwrapOr (measuredSize.add inset.sumAxes)) nodeMinSize nodeMaxSize
-      -- l.147–150
+      -- l.147–157: the aspect ratio only determines the height when the height is not already determined by the
+      -- style or the parent, and the height it determines is still subject to min/max height
       let size : Size α :=
         { width := clampedSize.width
-          height := Num.fmax clampedSize.height ((aspectRatio.map fun ratio => clampedSize.width / ratio).getD 0) }
-      -- l.151
+          height :=
+            if (knownDimensions.orOpt nodeSize).height.isSome then clampedSize.height
+            else MaybeMath.fo_clamp
+              (Num.fmax clampedSize.height ((aspectRatio.map fun ratio => clampedSize.width / ratio).getD 0))
+              nodeMinSize.height nodeMaxSize.height }
+      -- l.158
       let size := Size.f32Max size b.paddingBorder.sumAxes
-      -- l.153–163
+      -- l.160–170
       .ok ({ size
              contentSize := measuredSize.add b.padding.sumAxes
              firstBaselines := ⟨none, none⟩
